@@ -161,7 +161,16 @@ VARIANTS: List[Tuple[str, str, str, str, str, Tuple[str, ...]]] = [
     (S, 'validate-issubclass-filter', 'MosCollection._validate', 'mr for mr in self.mos_readers if mr.mos_type == RunningOrder\n',
      'mr for mr in self.mos_readers if issubclass(mr.mos_type, RunningOrder)\n', ('C11',)),
     (S, 'parse-string-memoised', 'MosFile.from_string', '    @classmethod\n    def from_string', '    @classmethod\n    @functools.lru_cache(maxsize=32)\n    def from_string', ('C07', 'C13')),
+    (S, 'tag-table-undocumented-row', 'MosFile._classify', "            'roElementAction': ElementAction,\n        }", "            'roElementAction': ElementAction,\n            'roListAll': ReadyToAir,\n        }", ('C08',)),
+    (S, 'tag-table-if-chain-wrong-class', 'MosFile._classify',
+     "        for tag, subcls in tag_class_map.items():\n            if xml.find(tag) is not None:",
+     "        if xml.find('roItemInsert') is not None:\n            return ItemReplace(xml)\n        for tag, subcls in tag_class_map.items():\n            if xml.find(tag) is not None:", ('C08',)),
+    (S, 'ea-table-extra-row', 'ElementAction._classify', "('REPLACE', False, False): EAStoryReplace,", "('REPLACE', False, False): EAStoryReplace,\n            ('REPLACE', False, True): EAItemReplace,", ('C08',)),
     # ================================================================== twins (must stay silent)
+    (T, 'tag-table-if-chain-prefix', 'MosFile._classify',
+     "        for tag, subcls in tag_class_map.items():\n            if xml.find(tag) is not None:",
+     "        if xml.find('roCreate') is not None:\n            return RunningOrder(xml)\n        for tag, subcls in tag_class_map.items():\n            if xml.find(tag) is not None:", ('C08', 'C12')),
+    (T, 'ea-table-via-get-default', 'ElementAction._classify', "        operation = ea.get('operation')", "        operation = ea.get('operation', None)", ('C08',)),
     (T, 'note-index-guarded-by-caller', 'moselements:_is_technical_note', "    if text.startswith('(') and text.endswith(')'):\n        return True",
      "    if text[0] == '(' and text[-1] == ')':\n        return True", ('C17', 'C15')),       # Story.script only calls it for a non-blank paragraph
     (T, 'iteminsert-offset-form', 'ItemInsert.merge',
